@@ -103,6 +103,12 @@ structure Env (α : Type) where
   /-- `math.exp` of `DualAveragingStepSize.learn` -/
   daSet : α → α
 
+/-- non-finite constants an operator may return instead of a Hastings ratio; `HR.inf` stands for any of them
+that the run loop's first test catches (`TTGen.C15_RunOrder.loopFailureTests`) -/
+inductive Sentinel where
+  | posInf | negInf | nan
+deriving Repr, DecidableEq
+
 /-- which value of `self._epoch` a statement of the loop body reads -/
 inductive EpochRef where
   | epochBefore | epochAfter
